@@ -123,7 +123,7 @@ pub fn histories(tier: Tier) -> Vec<Hist> {
         h.push(Hist {
             name: "two-peers-create",
             peers: 2,
-            steps: vec![Step::Clock(1), cp(0, 0, "a"), cp(1, 1, "b")],
+            steps: vec![Step::Clock(1), cp(0, 0, "a"), Step::PullAll, Step::Clock(2), cp(1, 1, "b"), cp(0, 2, "c")],
             deleted_nodes: vec![], deleted_refs: vec![], c11: false,
         });
         h.push(Hist {
